@@ -30,6 +30,8 @@ def plan(tier, seed):
         cfgs.append(dict(sched="DRR", table=tab, rate=8000, flows=[0, 1], sizes=sizes[:2] if quick else sizes, N=n + 1, gaps="G3", order=1))
         cfgs.append(dict(sched="DRR", table=tab, rate=8000, flows=[0, 1], sizes=[sizes[0], sizes[2]], N=6 if quick else 8,
                          gaps=["S"], order=0, static=True))
+    cfgs.append(dict(sched="DRR", table=[[0, 1], [1, 50]], rate=8000, flows=[0, 1], sizes=[1000, 150000], N=n + 1, gaps=["S", 1], order=0))
+    cfgs.append(dict(sched="DRR", table=[[0, 1], [1, 2]], rate=8000 * 2 ** 30, flows=[0, 1], sizes=[1000, 3000], N=n, gaps="G3", order=0, scale=2.0 ** -30))
     cfgs.append(dict(sched="DRR", table=[[0, 1], [1, 2], [2, 1]], rate=8000, flows=[0, 1, 2], sizes=[1000, 2000], N=n, gaps="G3", order=0))
     cfgs.append(dict(sched="DRR", table=[[0, 2]], rate=8000, flows=[0, 1], sizes=[1000, 2000], N=n, gaps="G3", order=0, map="one"))
     cfgs.append(dict(sched="DRR", table=[[0, 1], [1, 2]], rate=8000, flows=[0, 1], sizes=[1000, 2000], N=n, gaps="G3", order=0, map="swap"))
@@ -90,6 +92,8 @@ def execute(ch, cfg):
         def queue(c, v):
             return [a for a in D if cls(a) == c] + [a for a in M[:v] if cls(a) == c]
         limit = 3 * n + nM + 4
+        if kind == "DRR":
+            limit += 2 * n * int(max(cfg["sizes"]) / min(Q) + 1)      # a packet of many quanta needs that many empty-handed visits
         if kind == "RR":
             def search(p, v, g):
                 if g > limit:
